@@ -150,10 +150,10 @@ Theorem C01_stable_fields :
      strip is_space (strftime fmt d) = strftime fmt d -> stable_field f (VDate d)).
 Proof. split; [exact stable_int|split; [exact stable_lit|split; [exact stable_missing|exact stable_date]]]. Qed.
 Print Assumptions C01_stable_fields.
-(* ... for floats in F notation [stable_field] is proved in Properties/C01real.v (C01_stable_float): it needs the
-   nearest-point property of IEEE rounding for the concrete [rn64], proved with Flocq, and therefore depends on the
-   standard library's real-number axioms -- which is why it lives in its own file. For E notation text stability is
-   checked by the correspondence check and the direct oracle only. *)
+(* ... for floats [stable_field] is proved in Properties/C01real.v, in both notations and for every finite binary64 whose
+   text fits (C01_stable_float, C01_stable_float_sci, C01_stable_float_all): it needs the nearest-point property of IEEE
+   rounding for the concrete [rn64], proved with Flocq, and therefore depends on the standard library's real-number axioms
+   -- which is why it lives in its own file. *)
 
 (* setters: the values read and the text written depend only on the final field objects, delimiter and storage,
    not on how they were installed (constructor or setters) nor on what the slots held *)
